@@ -25,7 +25,7 @@ CHECKS = {
          "Every generated expression is evaluated on every document of the small-scope universe by xml_xpath::query (merged-text view) and by the reference evaluator; node-sets must hold exactly the expected nodes, once, in document order; scalars compare exactly.",
          "Trusts mc/src/model/xpath.rs (DESIGN.md Appendix C) and the node mapping in mc/src/checks/xp.rs; expressions and documents beyond the bounds are not covered; caller bindings are varied in C10.",
          "DESIGN.md §5 C05"),
- "C06": ("supervised exhaustive sweeps of xml_xpath::query: all token strings up to length L over 41 tokens, an unsupported / ill-typed / select-nothing catalogue in every syntactic position, the well-typed C05 families, 48 hostile shape families (doubling sizes; +2 steps for shapes whose node lists or predicate evaluations multiply per repetition) with growing sizes; crash / hang attributed to the exact expression by worker processes",
+ "C06": ("supervised exhaustive sweeps of xml_xpath::query: all token strings up to length L over 41 tokens, an unsupported / ill-typed / select-nothing catalogue in every syntactic position, the well-typed C05 families, 53 hostile shape families (doubling sizes; +2 steps for shapes whose node lists or predicate evaluations multiply per repetition) with growing sizes; crash / hang attributed to the exact expression by worker processes",
          "Every enumerated expression string is evaluated on five documents (attributes, comments / PIs, namespaces, xml:lang, empty CDATA sections) in supervised workers, with every kind of node as context node of every kind of expression; the only acceptable outcomes are a value or an error (and error-or-empty for variable references and id()); time blow-ups are judged by a soft cap with a 16x growth test.",
          "Time verdicts are caps on user CPU time of the evaluating thread, reported only when the growth against the previous family member is super-polynomial and reproduces on two more measurements; strings longer than L over other tokens are not covered; the worker has the default 8 MiB main-thread stack.",
          "DESIGN.md §5 C06"),
@@ -42,7 +42,7 @@ CHECKS = {
          "Trusts mc/src/model/xpath.rs (number <-> string conversions, substring rounding formula, round tie rule, comparison coercions) as the reading of XPath 1.0 sections 3.4, 3.5 and 4; strings outside the pool are not covered.",
          "DESIGN.md §5 C09"),
  "C10": ("bounded-exhaustive namespace layouts (20 slots over a 4-element skeleton, at most k non-default, namespace-well-formed only) x prefix renamings and reversed attribute order x 8 caller binding sets; expanded names, in-scope sets and name-test results against scope resolution on the abstract document",
-         "Every element's and attribute's expanded name, every element's in-scope namespace set, and 19-29 name tests / name functions per binding set are compared with the reference on every enumerated layout; consistent prefix renamings of the document and of the caller's bindings must not change results.",
+         "Every element's and attribute's expanded name, every element's in-scope namespace set, and 25-35 name tests / name functions per binding set are compared with the reference on every enumerated layout; consistent prefix renamings of the document and of the caller's bindings must not change results.",
          "Trusts the scope resolution in mc/src/model/xpath.rs XTree::from_adoc; layouts beyond k deviations and other skeletons are not covered; xq --setns is exercised in C17.",
          "DESIGN.md §5 C10"),
  "C11": ("bounded-exhaustive attribute value literals (all sequences of <= n parts over 20 parts) x declared types, and default kinds x types x written/absent x 8 declaration placements, against XML 1.0 3.3.3 computed on the abstract value",
